@@ -100,6 +100,26 @@ func (e *flowEngine) flowFrom(fn *ssa.Function, seeds []ssa.Value) *flowSummary 
 			work = append(work, v)
 		}
 	}
+	// a local struct is tainted field by field: a store into one field does not taint what is read from another
+	allocFields := map[*ssa.Alloc]map[int]bool{}
+	taintAlloc := func(a *ssa.Alloc, addr ssa.Value) {
+		fld := -1
+		if fa, ok := addr.(*ssa.FieldAddr); ok && fa.X == ssa.Value(a) {
+			fld = fa.Field
+		}
+		if allocFields[a] == nil {
+			allocFields[a] = map[int]bool{}
+		}
+		if allocFields[a][fld] {
+			return
+		}
+		allocFields[a][fld] = true
+		if seen[a] {
+			work = append(work, a) // look at its referrers again with the new field
+		} else {
+			push(a)
+		}
+	}
 	for _, s := range seeds {
 		push(s)
 	}
@@ -119,7 +139,7 @@ func (e *flowEngine) flowFrom(fn *ssa.Function, seeds []ssa.Value) *flowSummary 
 				if n := sinkName(x.Addr); n != "" {
 					sum.sinks[n] = true
 				} else if a, ok := addrRoot(x.Addr).(*ssa.Alloc); ok {
-					push(a)
+					taintAlloc(a, x.Addr)
 				}
 			case *ssa.MapUpdate:
 				if x.Key != v && x.Value != v {
@@ -174,6 +194,13 @@ func (e *flowEngine) flowFrom(fn *ssa.Function, seeds []ssa.Value) *flowSummary 
 			case *ssa.If, *ssa.Jump, *ssa.Panic, *ssa.RunDefers, *ssa.DebugRef, *ssa.Send:
 			default:
 				if val, ok := ins.(ssa.Value); ok {
+					if fa, ok := val.(*ssa.FieldAddr); ok {
+						if a, ok := v.(*ssa.Alloc); ok && fa.X == v {
+							if fs := allocFields[a]; fs != nil && !fs[-1] && !fs[fa.Field] {
+								continue
+							}
+						}
+					}
 					push(val)
 				}
 			}
@@ -379,8 +406,12 @@ var ruleMatchAnchor = &Rule{
 			anchored bool
 		}
 		for _, f := range c.ModFns() {
-			byBase := map[ssa.Value][]use{}
-			var order []ssa.Value
+			type grp struct {
+				base ssa.Value
+				kind string
+			}
+			byBase := map[grp][]use{}
+			var order []grp
 			for _, b := range f.Blocks {
 				for _, ins := range b.Instrs {
 					call, ok := ins.(*ssa.Call)
@@ -404,14 +435,16 @@ var ruleMatchAnchor = &Rule{
 					if _, isConst := base.(*ssa.Const); isConst {
 						continue
 					}
-					if _, seen := byBase[base]; !seen {
-						order = append(order, base)
+					gk := grp{base, cal.Name()}
+					if _, seen := byBase[gk]; !seen {
+						order = append(order, gk)
 					}
-					byBase[base] = append(byBase[base], use{call, anchored})
+					byBase[gk] = append(byBase[gk], use{call, anchored})
 				}
 			}
-			for _, base := range order {
-				us := byBase[base]
+			for _, gk := range order {
+				us := byBase[gk]
+				base := gk.base
 				anyA := false
 				for _, u := range us {
 					if u.anchored {
